@@ -464,6 +464,8 @@ func (s *simscreen) UnregisterRuneFallback(r rune) {
 }
 
 func (s *simscreen) CanDisplay(r rune, checkFallbacks bool) bool {
+	s.Lock()
+	defer s.Unlock()
 
 	if enc := s.encoder; enc != nil {
 		nb := make([]byte, 6)
